@@ -178,65 +178,77 @@ def tbl_mproc(ctx, code):
     return _cache[key]
 
 
-# ---- names -> table codes (fixed dictionaries: the SPEC side of the name <-> table association; a wrong association
-#      shows up as a table mismatch because every generated object is compared with the table found under its name)
-Q1 = {"x0": 0, "x1": 1, "y0": 2, "y1": 3, "z0": 4, "z1": 5, "a": 6}
-BELL = {"bell_phi_plus": 0, "bell_phi_minus": 1, "bell_psi_plus": 2, "bell_psi_minus": 3}
-LV = {"01": 0, "12": 1, "02": 2}
-AX = {"x": 0, "y": 1, "z": 2}
+# ---- names -> table codes: the association lives in Coq (Model/C17_Names.v prints every catalogue name from its table code);
+#      the harness only decodes the lists (ops c17.cat / c17.cat2t).  The NAME lists are compared with quara's in sub-check `catalogue`.
+SYSN = ["1qubit", "2qubit", "3qubit", "1qutrit", "2qutrit"]
 
 
-def qutrit_code(n):
-    if len(n) == 4 and n[:2] in LV and n[2] in AX and n[3] in "01":
-        return 6 * LV[n[:2]] + 2 * AX[n[2]] + int(n[3])
-    return None
+class Cat:
+    """decoded named catalogues of Model/C17_Names.v"""
+
+    def __init__(self, model):
+        self.m = model
+        self.state, self.state_names, self.state_inv = {}, {}, {}
+        self.povm, self.povm_names, self.povm_single = {}, {}, {}
+        self.gate, self.gate_names, self.gate_inv = {}, {}, {}
+        self.mproc, self.mproc_names = {}, []
+        self.g2t_single, self.g2t_single_names = {}, []
+        for k, sysname in enumerate(SYSN):
+            ents = self.entries(model.call("c17.cat", [0, k]))
+            self.state_names[sysname] = [n for n, _ in ents]
+            for n, code in ents:
+                self.state[n] = code; self.state_inv[tuple(code)] = n
+            ents = self.entries(model.call("c17.cat", [1, k]))
+            self.povm_names[sysname] = [n for n, _ in ents]
+            for n, code in ents:
+                self.povm[n] = code
+                if len(code) == 1:
+                    self.povm_single[n] = code[0]
+        for k, sysname in enumerate(SYSN[:4]):
+            ents = self.entries(model.call("c17.cat", [2, k]))
+            self.gate_names[sysname] = [n for n, _ in ents]
+            self.gate[sysname] = {n: code[0] for n, code in ents}
+            for n, code in ents:
+                self.gate_inv[(sysname, code[0])] = n
+        for n, code in self.entries(model.call("c17.cat", [3, 0])):
+            self.mproc[n] = (code[0], SYSN[code[1]]); self.mproc_names.append(n)
+        for n, code in self.entries(model.call("c17.cat", [4, 0])):
+            self.g2t_single[n] = tuple(code); self.g2t_single_names.append(n)
+        self.n_double = int(model.call("c17.cat2t", [])[0])
+        self._dbl = {}
+
+    @staticmethod
+    def entries(vals):
+        vals = [int(x) for x in vals]; pos = 0; out = []
+        while pos < len(vals):
+            n = vals[pos]; name = "".join(chr(c) for c in vals[pos + 1:pos + 1 + n]); pos += 1 + n
+            k = vals[pos]; code = vals[pos + 1:pos + 1 + k]; pos += 1 + k
+            out.append((name, code))
+        return out
+
+    def doubles(self, start=None, count=None, indices=None):
+        """[(name, [(b0, b1, k), (b0, b1, k)])] for a slice / the given indices of the two-term 2-qutrit names"""
+        if indices is None:
+            ents = []
+            for a in range(start, start + count, 3000):          # (slices: the extracted list functions are not tail recursive)
+                ents += self.entries(self.m.call("c17.cat2t", [a, min(3000, start + count - a)]))
+        else:
+            ents = self.entries(self.m.call("c17.cat2t", [-1] + list(indices)))
+        return [(n, [tuple(c[0:3]), tuple(c[3:6])]) for n, c in ents]
+
+
+def load_cat(ctx):
+    if "cat" not in _cache:
+        _cache["cat"] = Cat(ctx.get_model())
+    return _cache["cat"]
+
+
+def CAT():
+    return _cache["cat"]              # (load_cat(ctx) is called first thing in run / replay)
 
 
 def state_code(name):
-    if name in BELL:
-        return [1, BELL[name]]
-    if name == "ghz":
-        return [2]
-    if name == "werner":
-        return [3]
-    if name == "0_1_2_superposition":
-        return [5]
-    if name == "00_11_22_superposition":
-        return [6]
-    parts = name.split("_")
-    if all(p in Q1 for p in parts):
-        return [0] + [Q1[p] for p in parts]
-    if all(qutrit_code(p) is not None for p in parts):
-        return [4] + [qutrit_code(p) for p in parts]
-    return None
-
-
-G1 = {n: k for k, n in enumerate(["x90", "x180", "x", "y90", "y180", "y", "z90", "z180", "z", "phase", "phase_daggered", "piover8",
-                                  "piover8_daggered", "hadamard", "zm90"])}
-G2 = {"cx": 0, "cz": 1, "swap": 2, "zx90": 3, "zz90": 4}
-G3 = {"toffoli": 0, "fredkin": 1}
-GT1 = {l + a + ang: (0 if ang == "90" else 9) + 3 * LV[l] + AX[a] for l in LV for a in AX for ang in ("90", "180")}
-
-
-def base3_code(b):
-    if b == "i":
-        return 0
-    if len(b) == 3 and b[:2] in LV and b[2] in AX:
-        return 1 + 3 * LV[b[:2]] + AX[b[2]]
-    return None
-
-
-def split_2qutrit_single(n):
-    """'01x12y90' -> (b0, b1, k) table codes, None if not of that form"""
-    for ang, k in (("180", 2), ("90", 1)):
-        if n.endswith(ang):
-            body = n[:-len(ang)]
-            for cut in (1, 3):
-                b0, b1 = body[:cut], body[cut:]
-                c0, c1 = base3_code(b0), base3_code(b1)
-                if c0 is not None and c1 is not None and not (c0 == 0 and c1 == 0):
-                    return (c0, c1, k)
-    return None
+    return CAT().state.get(name)
 
 
 def gate_code(sysname, name, ids):
@@ -244,27 +256,20 @@ def gate_code(sysname, name, ids):
     d = SYSDIM[sysname]
     if name == "identity":
         return [0, d]
-    if sysname == "1qubit" and name in G1:
-        return [1, G1[name]]
-    if sysname == "2qubit" and name in G2:
-        return [2, G2[name], 1 if ids[0] > ids[1] else 0]
-    if sysname == "3qubit" and name in G3:
-        srt = sorted(ids)
-        return [3, G3[name]] + [srt.index(i) for i in ids]
-    if sysname == "1qutrit" and name in GT1:
-        return [4, GT1[name]]
     if sysname == "2qutrit":
-        t = split_2qutrit_single(name)
-        if t is not None:
-            return [5] + list(t)
-    return None
-
-
-P1 = {"x": 0, "y": 1, "z": 2, "bell": 3, "01x3": 4, "01y3": 5, "z3": 6, "z2": 7, "02x3": 8, "02y3": 9, "12x3": 10, "12y3": 11,
-      "xxparity": 12, "zzparity": 13}
-MP = {n: k for k, n in enumerate(["x-type1", "y-type1", "z-type1", "bell-type1", "z3-type1", "z2-type1", "xxparity-type1", "zzparity-type1",
-                                  "x-type2", "y-type2", "z-type2", "z3-type2", "z2-type2"])}
-MPSYS = {"x": "1qubit", "y": "1qubit", "z": "1qubit", "bell": "2qubit", "xxparity": "2qubit", "zzparity": "2qubit", "z3": "1qutrit", "z2": "1qutrit"}
+        t = CAT().g2t_single.get(name)
+        return [5] + list(t) if t is not None else None
+    k = CAT().gate[sysname].get(name)
+    if k is None:
+        return None
+    if sysname == "1qubit":
+        return [1, k]
+    if sysname == "2qubit":
+        return [2, k, 1 if ids[0] > ids[1] else 0]
+    if sysname == "3qubit":
+        srt = sorted(ids)
+        return [3, k] + [srt.index(i) for i in ids]
+    return [4, k]
 
 
 ROLES = {"toffoli": "ids[0], ids[1] control, ids[2] target", "fredkin": "ids[0] control, ids[1], ids[2] swapped"}
@@ -286,6 +291,56 @@ def V(ctx, sub, site, sig, what, case):
 
 def psd_exact(ctx, M, shift=TOL):
     return qcheck.herm_psd(ctx, M, shift)
+
+
+# ================================================================== 0. catalogue name lists: quara vs Model/C17_Names.v
+def chk_catalogue(ctx, case):
+    """the NAME lists of quara's get_*_names* functions against the named catalogues printed in Coq from the table codes
+    (the lists the theorems C17_catalogue_names_distinct / C17_named_* quantify over): same names, no duplicates"""
+    q = Q(); cat = CAT(); fam = case["family"]; sysname = case.get("sys")
+    def cmp(site, got, want):
+        ctx.count("catalogue", key=(fam, sysname), nontrivial=True, label=fam)
+        got = list(got)
+        dup = sorted({n for n in got if got.count(n) > 1}) if len(got) < 2000 else ([] if len(set(got)) == len(got) else ["(duplicates)"])
+        missing = [n for n in want if n not in set(got)]; extra = [n for n in got if n not in set(want)]
+        if dup or missing or extra:
+            V(ctx, "catalogue", site, "catalogue-differs-from-spec", "%s: %d names, Coq catalogue %d; missing %s, not in the Coq catalogue %s, duplicated %s" % (
+                site, len(got), len(want), missing[:5], extra[:5], dup[:5]), case)
+    if fam == "state":
+        cmp("state_typical.get_state_names_%s" % sysname, getattr(q.st, "get_state_names_%s" % sysname)(), cat.state_names[sysname])
+    elif fam == "povm":
+        cmp("povm_typical.get_povm_names_%s" % sysname, getattr(q.pt, "get_povm_names_%s" % sysname)(), cat.povm_names[sysname])
+    elif fam == "gate":
+        cmp("gate_typical.get_gate_names_%s" % sysname, getattr(q.gt, "get_gate_names_%s" % sysname)(), cat.gate_names[sysname])
+    elif fam == "mprocess":
+        cmp("mprocess_typical.get_mprocess_names_type1/2", q.mt.get_mprocess_names_type1() + q.mt.get_mprocess_names_type2(), cat.mproc_names)
+        cmp("povm_typical.get_povm_names_rank1", sorted(q.pt.get_povm_names_rank1() + q.pt.get_povm_names_not_rank1()), sorted(cat.povm_single))
+    elif fam == "gate2t-single":
+        cmp("gate_typical.get_gate_names_2qutrit_single_base_matrix", q.gt.get_gate_names_2qutrit_single_base_matrix(), cat.g2t_single_names)
+    elif fam == "gate2t-double":
+        got = q.gt.get_gate_names_2qutrit_two_base_matrices()
+        ctx.count("catalogue", key=(fam, case.get("all")), nontrivial=True, label=fam)
+        if len(got) != cat.n_double or len(set(got)) != len(got):
+            V(ctx, "catalogue", "gate_typical.get_gate_names_2qutrit_two_base_matrices", "catalogue-differs-from-spec",
+              "%d two-term 2-qutrit names (%d distinct), Coq catalogue %d" % (len(got), len(set(got)), cat.n_double), case); return
+        if case.get("all"):
+            want = [n for n, _ in cat.doubles(0, cat.n_double)]; idx = range(len(want))
+        else:
+            idx = case["indices"]; want = [n for n, _ in cat.doubles(indices=idx)]
+        bad = [(i, got[i], w) for i, w in zip(idx, want) if got[i] != w]
+        if bad:
+            V(ctx, "catalogue", "gate_typical.get_gate_names_2qutrit_two_base_matrices", "catalogue-differs-from-spec",
+              "name %d is %r, Coq catalogue %r (%d of %d compared positions differ)" % (bad[0] + (len(bad), len(want))), case)
+        all2 = q.gt.get_gate_names_2qutrit()
+        if len(all2) != len(set(all2)) or set(all2) != set(got) | set(cat.g2t_single_names):
+            V(ctx, "catalogue", "gate_typical.get_gate_names_2qutrit", "catalogue-differs-from-spec", "get_gate_names_2qutrit is not the duplicate-free union of its two sub-lists", case)
+
+
+def sub_catalogue(ctx):
+    cases = [{"family": f, "sys": sysname} for f in ("state", "povm") for sysname in SYSN] + [{"family": "gate", "sys": sysname} for sysname in SYSN[:4]]
+    cases += [{"family": "mprocess"}, {"family": "gate2t-single"}]
+    cases.append({"family": "gate2t-double", "all": True} if not ctx.quick else {"family": "gate2t-double", "indices": sorted(ctx.rng.sample(range(CAT().n_double), 3000))})
+    ctx.sample("catalogue", cases[2]); ctx.run_cases("catalogue", FNS["catalogue"], cases)
 
 
 # ================================================================== 1. named matrix bases
@@ -505,8 +560,8 @@ def chk_povm(ctx, case):
     except Exception as e:
         V(ctx, "povms", site, "listed-name-not-generable", "POVM %r on %s: %s: %s" % (n, sysname, type(e).__name__, str(e)[:200]), case); return
     ms = [np.asarray(m) for m in ms]
-    if all(x in P1 for x in parts):
-        t = tbl_povm(ctx, [P1[x] for x in parts])
+    if n in CAT().povm:
+        t = tbl_povm(ctx, CAT().povm[n])
         if len(t) != len(ms) or max(mx(a, b) for a, b in zip(ms, t)) > TTOL:
             V(ctx, "povms", "povm_typical.generate_povm_matrices_from_name", "differs-from-table", "POVM %r: %d elements, table %d, max difference %.3g" % (
                 n, len(ms), len(t), max([mx(a, b) for a, b in zip(ms, t)] + [0])), case)
@@ -813,36 +868,15 @@ def decode_triples(vals):
     return out
 
 
-Q1N = {v: k for k, v in Q1.items()}
-BELLN = {v: k for k, v in BELL.items()}
-G1N = {v: k for k, v in G1.items()}; G2N = {v: k for k, v in G2.items()}; G3N = {v: k for k, v in G3.items()}; GT1N = {v: k for k, v in GT1.items()}
-LVN = {v: k for k, v in LV.items()}; AXN = {v: k for k, v in AX.items()}
-
-
 def state_name_of(code):
-    if code[0] == 0:
-        return "_".join(Q1N[k] for k in code[1:])
-    if code[0] == 1:
-        return BELLN[code[1]]
-    if code[0] == 2:
-        return "ghz"
-    if code[0] == 3:
-        return "werner"
-    if code[0] == 4:
-        return "_".join(LVN[k // 6] + AXN[(k // 2) % 3] + str(k % 2) for k in code[1:])
-    return "0_1_2_superposition" if code[0] == 5 else "00_11_22_superposition"
+    return CAT().state_inv[tuple(code)]
 
 
 def gate_name_of(code):
-    if code[0] == 1:
-        return "1qubit", G1N[code[1]], [0]
-    if code[0] == 2:
-        return "2qubit", G2N[code[1]], ([1, 0] if code[2] else [0, 1])
-    if code[0] == 3:
-        return "3qubit", G3N[code[1]], list(code[2:])
-    if code[0] == 4:
-        return "1qutrit", GT1N[code[1]], [0]
-    raise ValueError(code)
+    sysname = {1: "1qubit", 2: "2qubit", 3: "3qubit", 4: "1qutrit"}[code[0]]
+    name = CAT().gate_inv[(sysname, code[1])]
+    ids = [0] if code[0] in (1, 4) else ([1, 0] if code[2] else [0, 1]) if code[0] == 2 else list(code[2:])
+    return sysname, name, ids
 
 
 def triple_gate(sysname, gname, ids, verdict):
@@ -894,7 +928,7 @@ def mprocess_cases():
     names = mt.get_mprocess_names_type1() + mt.get_mprocess_names_type2()
     cases = []
     for n in names:
-        cases.append({"sys": MPSYS.get(n.split("-")[0]), "name": n})
+        cases.append({"sys": CAT().mproc.get(n, (None, None))[1], "name": n})
     # product names are accepted by the generators (split on "_"): a few on the 2-qubit / 2-qutrit systems
     for a, b in (("x-type1", "z-type2"), ("y-type2", "x-type1"), ("z-type1", "z-type1")):
         cases.append({"sys": "2qubit", "name": a + "_" + b})
@@ -921,8 +955,8 @@ def chk_mprocess(ctx, case):
     except Exception as e:
         V(ctx, "mprocess", site, "listed-name-not-generable", "mprocess %r on %s: %s: %s" % (n, sysname, type(e).__name__, str(e)[:200]), case); return
     ks = [[np.asarray(k) for k in out] for out in ks]
-    if len(parts) == 1 and n in MP:
-        t = tbl_mproc(ctx, MP[n])
+    if len(parts) == 1 and n in CAT().mproc:
+        t = tbl_mproc(ctx, CAT().mproc[n][0])
         bad = len(t) != len(ks) or any(len(a) != len(b) for a, b in zip(t, ks)) or max(mx(x, y) for a, b in zip(t, ks) for x, y in zip(a, b)) > TTOL
         if bad:
             V(ctx, "mprocess", "mprocess_typical.generate_mprocess_set_kraus_matrices_from_name", "differs-from-table", "Kraus set of %r differs from the textbook table" % n, case)
@@ -1036,6 +1070,26 @@ def product_names(rng, fq, ft, specials, n_each):
     return res
 
 
+MORPH = None
+
+
+def morpheme_names(listed, extra_stems=()):
+    """NEAR-MISS single names: the listed single names of a family are cut into (leading digits, letters, trailing digits, -typeN suffix) and the
+    observed values of the four slots (plus 'absent') are recombined; everything that is not itself listed is a name that follows the
+    catalogue's own spelling pattern (e.g. POVM '01z3', '02z3', 'x3'; gate '01x', 'hadamard90', 'ii90'; mprocess 'bell-type2') but is in no list"""
+    import re
+    rx = re.compile(r"^(\d*)([a-z_]+?)(\d*)(-type\d+)?$")
+    slots = [set([""]), set(extra_stems), set([""]), set([""])]
+    for n in listed:
+        m = rx.match(n)
+        if m:
+            for k in range(4):
+                slots[k].add(m.group(k + 1) or "")
+    slots[1].discard("")
+    out = sorted({a + b + c + d for a in slots[0] for b in slots[1] for c in slots[2] for d in slots[3]} - set(listed))
+    return out
+
+
 def product_factor_pools():
     """family -> (one-qubit factors, one-qutrit factors, special names) read from the catalogues"""
     q = Q()
@@ -1043,8 +1097,9 @@ def product_factor_pools():
     stsp = [n for n in q.st.get_state_names() if "_" in n and not all(p in st1q or p in st1t for p in n.split("_"))] + ["ghz", "werner"]
     pv1q = q.pt.get_povm_names_1qubit(); pv1t = q.pt.get_povm_names_1qutrit(); pvsp = [n for n in q.pt.get_povm_names_2qubit() if "_" not in n]
     mp = q.mt.get_mprocess_names_type1() + q.mt.get_mprocess_names_type2()
-    mp1q = [n for n in mp if MPSYS.get(n.split("-")[0]) == "1qubit"]; mp1t = [n for n in mp if MPSYS.get(n.split("-")[0]) == "1qutrit"]
-    mpsp = [n for n in mp if MPSYS.get(n.split("-")[0]) == "2qubit"]
+    msys = lambda n: CAT().mproc.get(n, (None, None))[1]
+    mp1q = [n for n in mp if msys(n) == "1qubit"]; mp1t = [n for n in mp if msys(n) == "1qutrit"]
+    mpsp = [n for n in mp if msys(n) == "2qubit"]
     g1q = q.gt.get_gate_names_1qubit(); g1t = q.gt.get_gate_names_1qutrit()
     gsp = q.gt.get_gate_names_2qubit() + q.gt.get_gate_names_3qubit() + q.gt.get_gate_names_2qutrit_single_base_matrix()[:6] + ["identity"]
     en = q.et.get_state_ensemble_names()
@@ -1136,7 +1191,8 @@ def chk_unknown(ctx, case):
             continue
         yields.append("%s -> %s%s" % (form, type(obj).__name__, (" of shape %s" % (np.shape(obj),)) if isinstance(obj, np.ndarray) else ""))
     if yields:
-        sig = "unlisted-name-accepted" if case.get("foreign") else "offcatalogue-product-accepted:" + case["product"] if case.get("product") else "unknown-name-yields-object"
+        sig = "unlisted-name-accepted" if case.get("foreign") else "offcatalogue-product-accepted:" + case["product"] if case.get("product") else \
+            "nearmiss-name-accepted" if case.get("nearmiss") else "unknown-name-yields-object"
         site = "state_typical.is_valid_state_name" if yields[0].startswith("is_valid_state_name") else SITES[case["family"]]
         V(ctx, "unknown_names", site, sig,
           "%s name %r is in no catalogue list but %d of %d object forms / dispatchers yield an object instead of raising: %s" % (case["family"], name, len(yields), len(probes), "; ".join(yields[:6])), case)
@@ -1160,7 +1216,7 @@ def chk_offlist_product(ctx, case):
     site = SITES[fam]; sig = "offcatalogue-product-differs:" + case["product"]
     ctx.count("unknown_names", key=(fam, name, "product"), nontrivial=True, label=fam + "-offlist-product")
     if fam == "povm":
-        tabs = [tbl_povm(ctx, [P1[p]]) for p in parts]
+        tabs = [tbl_povm(ctx, [CAT().povm_single[p]]) for p in parts]
         want = tabs[0]
         for t in tabs[1:]:
             want = [np.kron(a, b) for a, b in itertools.product(want, t)]
@@ -1190,7 +1246,7 @@ def chk_offlist_product(ctx, case):
     else:
         tabs = []
         for p in parts:
-            t = tbl_mproc(ctx, MP[p]); tabs.append([np.array(out) for out in t])
+            t = tbl_mproc(ctx, CAT().mproc[p][0]); tabs.append([np.array(out) for out in t])
         want = tabs[0]
         for t in tabs[1:]:
             want = [np.kron(a, b) for a, b in itertools.product(want, t)]
@@ -1243,9 +1299,40 @@ def chk_validator(ctx, case):
             V(ctx, "unknown_names", "state_typical.is_valid_state_name", "listed-name-rejected", "is_valid_state_name(%r) is False for a listed name" % n, {"family": "state", "name": n, "validator": True})
 
 
+def chk_auxlists(ctx, case):
+    """the generators use AUXILIARY lists as validity tests (get_povm_names_rank1, get_mprocess_names_type1_set_pure_state_vectors,
+    get_gate_names_2qubit_asymmetric, ...): every zero-argument get_<family>_names* function of a catalogue module must return names of that
+    family's catalogue - a name that is only in an auxiliary list is accepted by a generator although no catalogue lists it"""
+    import inspect
+    q = Q()
+    mods = {"state": (q.st, "get_state_names"), "povm": (q.pt, "get_povm_names"), "gate": (q.gt, "get_gate_names"), "mprocess": (q.mt, "get_mprocess_names"),
+            "state_ensemble": (q.et, "get_state_ensemble_names")}
+    for fam, (mod, prefix) in mods.items():
+        main = set(_listed(fam)) | ({"identity"} if fam == "gate" else set())
+        factors = {p for n in main for p in n.split("_")} if fam in ("povm", "mprocess") else set()
+        for fname, fn in sorted(vars(mod).items()):
+            if not (fname.startswith(prefix) and callable(fn)) or getattr(fn, "__module__", None) != mod.__name__:
+                continue
+            try:
+                if any(p.default is inspect.Parameter.empty for p in inspect.signature(fn).parameters.values()):
+                    continue
+                names = fn()
+            except Exception as e:
+                V(ctx, "unknown_names", "%s.%s" % (mod.__name__.split(".")[-1], fname), "catalogue-function-raises", "%s() raises %s" % (fname, type(e).__name__), case); continue
+            ctx.count("unknown_names", key=("auxlist", fam, fname), nontrivial=True, label="auxlists")
+            if not isinstance(names, (list, tuple)) or not all(isinstance(n, str) for n in names):
+                continue
+            stray = [n for n in names if n not in main and n not in factors]
+            if stray:
+                V(ctx, "unknown_names", "%s.%s" % (mod.__name__.split(".")[-1], fname), "auxiliary-list-name-not-in-catalogue",
+                  "%s() contains %s, which no catalogue list of the %s family contains" % (fname, stray[:5], fam), case)
+
+
 def chk_unknown_any(ctx, case):
     if case.get("validator"):
         return chk_validator(ctx, case)
+    if case.get("auxlists"):
+        return chk_auxlists(ctx, case)
     return chk_object_name(ctx, case) if "object_name" in case else chk_unknown(ctx, case)
 
 
@@ -1268,7 +1355,30 @@ def sub_unknown(ctx):
         pn = [(n, k) for n, k in pn if n not in _listed(f)]
         nprod[f] = len(pn)
         cases += [{"family": f, "name": n, "product": k, "quick": ctx.quick} for n, k in pn]
+    # near-miss single names recombined from the catalogue's own spelling pattern, alone and as a factor next to a listed factor
+    nmiss = {}
+    singles = {f: [n for n in _listed(f) if "_" not in n or f == "gate"] for f in fam}
+    q = Q()
+    singles["gate"] = q.gt.get_gate_names_1qubit() + q.gt.get_gate_names_2qubit() + q.gt.get_gate_names_3qubit() + q.gt.get_gate_names_1qutrit() + \
+        q.gt.get_gate_names_2qutrit_single_base_matrix()
+    extra = {"mprocess": [n for n in _listed("povm") if "_" not in n], "state_ensemble": q.st.get_state_names_1qubit()}
+    for f in fam:
+        cand = [n for n in morpheme_names(singles[f], extra.get(f, ())) if n not in _listed(f) and not fam[f][1](n)]
+        cap = {"gate": ctx.n(16, 400), "state": ctx.n(60, 10 ** 6)}.get(f, ctx.n(90, 10 ** 6))
+        if len(cand) > cap:
+            cand = sorted(ctx.rng.sample(cand, cap))
+        nmiss[f] = len(cand)
+        cases += [{"family": f, "name": n, "nearmiss": True, "quick": ctx.quick} for n in cand]
+        pools_f = [x for x in pools[f][0] + pools[f][1]]
+        if f in ("povm", "mprocess", "state") and pools_f:
+            for n in (cand if len(cand) <= 30 else ctx.rng.sample(cand, 30)):
+                other = ctx.rng.choice(pools_f)
+                for nm in (n + "_" + other, other + "_" + n):
+                    if nm not in _listed(f) and not fam[f][1](nm):
+                        cases.append({"family": f, "name": nm, "nearmiss": True, "quick": ctx.quick})
+    ctx.note("unknown_names: near-miss single names recombined from the spelling slots of the listed names (must raise in every form): %s" % nmiss)
     cases.append({"validator": True})
+    cases.append({"auxlists": True})
     for f in ("state", "povm", "gate", "mprocess", "effective_lindbladian", "state_ensemble", "mode"):
         for bad in ("", "stat", "State", "gate_", "unitary", "object"):
             cases.append({"family": f, "object_name": bad})
@@ -1288,8 +1398,9 @@ def _w_init(tbl_single, verdict=True):
     _W["c"] = csys("2qutrit"); _W["basis"] = basis_of(_W["c"])
 
 
-def ham_of(name, tbl):
-    return sum(tbl[p][0] for p in name.split("_")) * (math.pi / 4)
+def ham_of(terms, tbl):
+    """(pi/4) x sum of the Coq tables of the name's terms (the terms come from the Coq catalogue, Model/C17_Names.v)"""
+    return sum(tbl[t][0] for t in terms) * (math.pi / 4)
 
 
 def _w_check(arg):
@@ -1297,7 +1408,7 @@ def _w_check(arg):
     level 0: unitary_mat and hamiltonian_mat (table, unitarity, exp(-iH) = U); level 1: + Gate object (HS matrix of U, TP, verdict);
     level 2: + gate_mat, hamiltonian_vec, effective_lindbladian_mat, EffectiveLindbladian (all seven object forms).
     Every object form of a 2-qutrit name is computed by quara from the name's Hamiltonian through helpers shared by all names."""
-    name, level = arg
+    name, level, terms = arg
     level = 2 if level is True else int(level); heavy = level >= 2
     q = Q(); c = _W["c"]; basis = _W["basis"]; tbl = _W["tbl"]; out = []; verdict = _W.get("verdict", True)
     dims, ids = [3, 3], [0, 1]
@@ -1313,11 +1424,12 @@ def _w_check(arg):
             el = q.lt.generate_effective_lindbladian_from_gate_name(name, c, ids, is_physicality_required=False)
     except Exception as e:
         return [("gate_typical.generate_gate_object_from_gate_name_object_name", "listed-name-not-generable", "2-qutrit gate %r: %s: %s" % (name, type(e).__name__, str(e)[:200]), name)]
-    if all(p in tbl for p in name.split("_")):
-        if mx(hm, ham_of(name, tbl)) > TTOL * 10:
-            out.append(("effective_lindbladian_typical.generate_hamiltonian_mat_from_gate_name", "differs-from-table", "Hamiltonian of %r differs from (pi/4) x table by %.3g" % (name, mx(hm, ham_of(name, tbl)))))
-        if "_" not in name and mx(u, tbl[name][1]) > TOL:
-            out.append(("gate_typical.generate_unitary_mat_from_gate_name", "differs-from-table", "unitary of %r differs from the rotation-formula table by %.3g" % (name, mx(u, tbl[name][1]))))
+    if terms is not None and all(tuple(t) in tbl for t in terms):
+        terms = [tuple(t) for t in terms]
+        if mx(hm, ham_of(terms, tbl)) > TTOL * 10:
+            out.append(("effective_lindbladian_typical.generate_hamiltonian_mat_from_gate_name", "differs-from-table", "Hamiltonian of %r differs from (pi/4) x table by %.3g" % (name, mx(hm, ham_of(terms, tbl)))))
+        if len(terms) == 1 and mx(u, tbl[terms[0]][1]) > TOL:
+            out.append(("gate_typical.generate_unitary_mat_from_gate_name", "differs-from-table", "unitary of %r differs from the rotation-formula table by %.3g" % (name, mx(u, tbl[terms[0]][1]))))
     else:
         out.append(("gate_typical.get_gate_names_2qutrit", "name-not-in-table", "2-qutrit name %r has no table Hamiltonian" % name))
     if mx(u.conj().T @ u, np.eye(9)) > TOL:
@@ -1344,34 +1456,63 @@ def _w_check(arg):
     return [(a, b, c_, name) for a, b, c_ in out]
 
 
-def _w_ham_batch(names):
+def _w_ham_batch(named_terms):
     """level -1: the name-specific step of every 2-qutrit object form - name -> Hamiltonian
-    (gate_typical.calc_hamiltonian_mat_from_gate_name_2qutrit_base_matrices, no catalogue look-up) - against (pi/4) x the Coq table"""
+    (gate_typical.calc_hamiltonian_mat_from_gate_name_2qutrit_base_matrices, no catalogue look-up) - against (pi/4) x the Coq table
+    of the terms the Coq catalogue stores under that name"""
     q = Q(); tbl = _W["tbl"]; out = []
     f = q.gt.calc_hamiltonian_mat_from_gate_name_2qutrit_base_matrices
-    for name in names:
+    for name, terms in named_terms:
         try:
             hm = np.asarray(f(name))
         except Exception as e:
             out.append(("gate_typical.calc_hamiltonian_mat_from_gate_name_2qutrit_base_matrices", "listed-name-not-generable", "2-qutrit gate %r: %s: %s" % (name, type(e).__name__, str(e)[:200]), name)); continue
-        if not all(p in tbl for p in name.split("_")):
+        if terms is None or not all(tuple(t) in tbl for t in terms):
             out.append(("gate_typical.get_gate_names_2qutrit", "name-not-in-table", "2-qutrit name %r has no table Hamiltonian" % name, name)); continue
-        if hm.shape != (9, 9) or mx(hm, ham_of(name, tbl)) > TTOL * 10:
-            out.append(("effective_lindbladian_typical.generate_hamiltonian_mat_from_gate_name", "differs-from-table", "Hamiltonian of %r differs from (pi/4) x table by %.3g" % (name, mx(hm, ham_of(name, tbl))), name))
+        terms = [tuple(t) for t in terms]
+        if hm.shape != (9, 9) or mx(hm, ham_of(terms, tbl)) > TTOL * 10:
+            out.append(("effective_lindbladian_typical.generate_hamiltonian_mat_from_gate_name", "differs-from-table", "Hamiltonian of %r differs from (pi/4) x table by %.3g" % (name, mx(hm, ham_of(terms, tbl))), name))
     return out
 
 
 def single_tables(ctx):
     """table Hamiltonian / (pi/4) and rotation-formula unitary of the 198 single-base-matrix names, from the Coq tables"""
-    names = Q().gt.get_gate_names_2qutrit_single_base_matrix()
     tbl = {}
-    for n in names:
-        t = split_2qutrit_single(n)
-        if t is None:
-            continue
+    for n, t in CAT().g2t_single.items():
         K = np.array(ev(ctx.get_model().call("c17.ham2t", list(t)))).reshape(9, 9)
-        tbl[n] = (K, tbl_gate(ctx, [5] + list(t)))
+        tbl[tuple(t)] = (K, tbl_gate(ctx, [5] + list(t)))
     return tbl
+
+
+def terms_2qutrit(names):
+    """name -> terms of the Coq catalogue (None when the Coq catalogue has no such name at quara's position)"""
+    cat = CAT(); out = {}
+    dbl = _cache.get("quara_doubles_index")
+    if dbl is None:
+        dbl = {n: i for i, n in enumerate(Q().gt.get_gate_names_2qutrit_two_base_matrices())}; _cache["quara_doubles_index"] = dbl
+    want = []
+    for n in names:
+        if n in cat.g2t_single:
+            out[n] = [cat.g2t_single[n]]
+        elif n in dbl:
+            want.append((dbl[n], n))
+        else:
+            out[n] = None
+    if len(want) > 20000:
+        got = cat.doubles(0, cat.n_double)
+        byname = dict(got)
+        for i, n in want:
+            out[n] = byname.get(n)
+    else:
+        for k in range(0, len(want), 2000):
+            chunk = want[k:k + 2000]
+            got = cat.doubles(indices=[i for i, _ in chunk])
+            bypos = {}
+            for (i, n), (cn, terms) in zip([c for c in chunk if c[0] < cat.n_double], got):
+                bypos[n] = terms if cn == n else None
+            for i, n in chunk:
+                out[n] = bypos.get(n)
+    return out
 
 
 def chk_2qutrit(ctx, case):
@@ -1381,15 +1522,14 @@ def chk_2qutrit(ctx, case):
     if "c" not in _W:
         _w_init(tbl, case.get("verdict", True))
     _W["verdict"] = bool(case.get("verdict", True))
-    for site, sig, what, _ in _w_ham_batch([name]) + _w_check((name, 2)):
+    terms = terms_2qutrit([name])[name]
+    for site, sig, what, _ in _w_ham_batch([(name, terms)]) + _w_check((name, 2, terms)):
         V(ctx, "gates_2qutrit", site, sig, what, case)
     ctx.count("gates_2qutrit", key=name, nontrivial=True, label="model-tied")
     if case.get("model"):
         q = Q(); c = _W["c"]; basis = _W["basis"]
-        parts = name.split("_")
-        if all(p in tbl for p in parts):
-            terms = [x for p in parts for x in split_2qutrit_single(p)]
-            K = np.array(ev(ctx.get_model().call("c17.ham2t", terms))).reshape(9, 9)
+        if terms is not None:
+            K = np.array(ev(ctx.get_model().call("c17.ham2t", [x for t in terms for x in t]))).reshape(9, 9)
             hm = np.asarray(q.lt.generate_hamiltonian_mat_from_gate_name(name, [3, 3], [0, 1]))
             if mx(hm, K * (math.pi / 4)) > TTOL * 10:
                 V(ctx, "gates_2qutrit", "effective_lindbladian_typical.generate_hamiltonian_mat_from_gate_name", "differs-from-table", "Hamiltonian of %r differs from the Coq table ham2t by %.3g" % (name, mx(hm, K * (math.pi / 4))), case)
@@ -1430,12 +1570,16 @@ def sub_2qutrit(ctx):
         # quara tabulates B_a (x) conj(B_b) on the first physicality verdict of a composite system (7 s at d = 9):
         # do it once here, the forked workers inherit the cache
         Q().gt.generate_gate_from_gate_name(singles[0], csys("2qutrit"), [0, 1]).is_physical()
+    if getattr(ctx, "boost", False):
+        hnames = list(allnames)            # the translator tie is broken: look for a concrete failing name among ALL names
     nproc = max(1, min(8 if ctx.quick else 16, os.cpu_count() or 1, len(names)))
     fails = []
+    tmap = terms_2qutrit(list(hnames) + list(names))
+    hpairs = [(n, tmap.get(n)) for n in hnames]
     with mp.get_context("fork").Pool(nproc, initializer=_w_init, initargs=(tbl, verdict)) as pool:
-        for res in pool.imap_unordered(_w_ham_batch, [hnames[i:i + 500] for i in range(0, len(hnames), 500)]):
+        for res in pool.imap_unordered(_w_ham_batch, [hpairs[i:i + 500] for i in range(0, len(hpairs), 500)]):
             fails += res
-        for res in pool.imap_unordered(_w_check, [(n, level[n]) for n in names], chunksize=2 if ctx.quick else 8):
+        for res in pool.imap_unordered(_w_check, [(n, level[n], tmap.get(n)) for n in names], chunksize=2 if ctx.quick else 8):
             fails += res
     t2 = time.time()
     for n in hnames:
@@ -1468,9 +1612,9 @@ def _guard(sub, fn):
     return wrapped
 
 
-SUBS = [("bases", sub_bases), ("states", sub_states), ("povms", sub_povms), ("gates", sub_gates), ("permute", sub_permute), ("triples", sub_triples),
+SUBS = [("catalogue", sub_catalogue), ("bases", sub_bases), ("states", sub_states), ("povms", sub_povms), ("gates", sub_gates), ("permute", sub_permute), ("triples", sub_triples),
         ("mprocess", sub_mprocess), ("ensembles", sub_ensembles), ("unknown_names", sub_unknown), ("gates_2qutrit", sub_2qutrit)]
-FNS = {"bases": chk_basis, "states": chk_states_any, "povms": chk_povm_any, "gates": chk_gate_any, "permute": chk_permute, "triples": chk_triple, "mprocess": chk_mprocess,
+FNS = {"catalogue": chk_catalogue, "bases": chk_basis, "states": chk_states_any, "povms": chk_povm_any, "gates": chk_gate_any, "permute": chk_permute, "triples": chk_triple, "mprocess": chk_mprocess,
        "ensembles": chk_ensemble, "unknown_names": chk_unknown_any, "gates_2qutrit": chk_2qutrit}
 FNS = {k: _guard(k, f) for k, f in FNS.items()}
 
@@ -1483,6 +1627,58 @@ def _timed(name, fn):
         t0 = time.time(); c0 = cpu(); fn(ctx)
         _cache.setdefault("times", []).append((name, time.time() - t0, cpu() - c0))
     return wrapped
+
+
+def regen_names(ctx):
+    """translator tie (protocol of flow.regen_check with this property's own translator gen/c17_py2coq.py): regenerate the Gallina text of the
+    name -> Hamiltonian code of gate_typical.py from the CURRENT source, compile it, and re-check coq/gen/C17_Equiv.v (quick and thorough) and
+    coq/gen/C17_EquivAll.v (thorough: all 39 204 names).  returns (ok, info)"""
+    import re, shutil, subprocess, sys
+    import runner
+    Vd = runner.V
+    scratch = os.path.join(getattr(ctx, "scratch", os.path.join(Vd, "build", ctx.prop_id)), "gen")
+    os.makedirs(scratch, exist_ok=True)
+    files = ["C17_Equiv"] + ([] if ctx.quick else ["C17_EquivAll"])
+    thms = []
+    for fn in files:
+        src = open(os.path.join(Vd, "coq", "gen", fn + ".v")).read()
+        thms += re.findall(r"^\s*Theorem\s+([\w']+)", re.sub(r"\(\*.*?\*\)", " ", src, flags=re.S), flags=re.M)
+    ctx.theorems = list(ctx.theorems) + [t for t in thms if t not in ctx.theorems]
+    ctx.obligations += len(thms)
+    gen_v = os.path.join(scratch, "Gen_c17_names.v")
+    r = subprocess.run([sys.executable, os.path.join(Vd, "gen", "c17_py2coq.py"), os.environ.get("VERIF_REPO", "/repo"), gen_v], capture_output=True, text=True, timeout=120)
+    if r.returncode != 0:
+        return False, {"theorem": thms[0], "error": "translator rejected the source (outside its subset): " + (r.stdout + r.stderr)[-600:]}
+    ctx.note("translator tie: " + r.stdout.strip()[:900])
+    qargs = ["-Q", os.path.join(Vd, "coq", "theories"), "QV", "-Q", scratch, "QVGen"]
+    r = subprocess.run(["timeout", "300", "coqc"] + qargs + [gen_v], capture_output=True, text=True)
+    if r.returncode != 0:
+        return False, {"theorem": thms[0], "error": "regenerated definitions do not compile: " + (r.stdout + r.stderr)[-600:]}
+    nblocks = 0
+    for fn in files:
+        dst = os.path.join(scratch, fn + ".v")
+        shutil.copy(os.path.join(Vd, "coq", "gen", fn + ".v"), dst)
+        r = subprocess.run(["timeout", "600", "coqc"] + qargs + [dst], capture_output=True, text=True)
+        out = r.stdout + r.stderr
+        if r.returncode != 0:
+            m_ = re.search(r"line (\d+), characters", out); thm = None
+            if m_:
+                upto = "\n".join(open(dst).read().splitlines()[:int(m_.group(1))])
+                names = re.findall(r"^\s*(?:Theorem|Lemma)\s+([\w']+)", upto, flags=re.M)
+                thm = names[-1] if names else None
+            return False, {"theorem": thm, "error": out[-800:]}
+        blocks = runner.parse_assumptions(out)
+        bad = [a for closed, axs in blocks for a in axs if a not in runner.ALLOWED_AXIOMS and a.split(".")[-1] not in runner.ALLOWED_AXIOMS]
+        if bad:
+            return False, {"theorem": thms[0], "error": "assumption gate on regenerated proofs: disallowed %s" % bad}
+        for closed, axs in blocks:
+            if nblocks < len(thms):
+                ctx.axioms[thms[nblocks]] = "closed" if closed else sorted(set(axs))
+            nblocks += 1
+    if nblocks != len(thms):
+        return False, {"theorem": thms[0], "error": "assumption gate on regenerated proofs: %d blocks / %d theorems" % (nblocks, len(thms))}
+    ctx.discharged += len(thms)
+    return True, {}
 
 
 def run(ctx):
@@ -1498,9 +1694,31 @@ def run(ctx):
                        "CP of 8- and 9-dimensional gates is certified through the Kraus form HS = hs_of_kraus [U] (NumPy; Coq model on a sample), not by an exact PSD decision",
                        "C17: quick tier only - quara's own Gate / MProcess physicality verdict is not asked at dimension 8 and 9 (objects built with is_physicality_required=False; "
                        "physicality established by the harness: U unitary, HS = hs_of_kraus [U], TP row / Choi eigenvalues); the thorough tier asks every verdict"]
-    flow.standard_run(ctx, [(name, _timed(name, fn)) for name, fn in SUBS])
+    # flow.standard_run with this property's own translator tie
+    import runner, time
+    load_cat(ctx)
+    ok, info = runner.check_props(ctx)
+    t0 = time.time()
+    ok2, info2 = regen_names(ctx)
+    _cache.setdefault("times", []).append(("translator-tie", time.time() - t0, 0.0))
+    if not ok2:
+        ok, info = False, info2
+        ctx.boost = True          # widen: the Hamiltonian of ALL 2-qutrit names is compared with the tables to find a concrete failing name
+        ctx.note("regenerated-parser obligations (coq/gen/C17_Equiv*.v) not discharged: %s" % str(info2)[:500])
+    if not ok:
+        ctx.discharged = min(ctx.discharged, ctx.obligations - 1)
+    for name, fn in SUBS:
+        if ctx.only is None or name in ctx.only:
+            _timed(name, fn)(ctx)
+    if not ok and not ctx.violations:
+        ctx.violation("theorems", "Props/%s.v" % ctx.prop_id, "theorem-broken:%s" % info.get("theorem"),
+                      "theorem %s no longer checks: %s" % (info.get("theorem"), info.get("error", "")[-400:]),
+                      {"theorem": info.get("theorem"), "error": info.get("error")}, no_input=True)
+    elif not ok:
+        ctx.note("theorem obligations not discharged: %s" % info)
     ctx.note("wall / cpu time per sub-check (s): " + ", ".join("%s %.1f/%.1f" % kv for kv in _cache.get("times", [])))
 
 
 def replay(ctx, doc):
+    load_cat(ctx)
     flow.standard_replay(ctx, doc, FNS)
